@@ -235,7 +235,7 @@ def main(argv=None):
         return 0
 
     kf = findings_mod.load(prop)
-    avoid = sorted(findings_mod.avoid_features(kf))
+    avoid = sorted(findings_mod.avoid_features(kf, prop))
 
     if args.show is not None:
         print(json.dumps(gen_case(prop, batch_seed, args.show, args.tier, avoid), indent=1, default=str))
